@@ -150,6 +150,122 @@ def impl_async(arg):
     return asyncio.run(run())
 
 
+def impl_sync2(arg):
+    """two consecutive exchanges on one connection"""
+    from dpapi_ng._rpc._client import SyncRpcClient
+    from dpapi_ng._rpc._request import Response
+
+    from ..core import classify
+
+    stream, sched = arg
+    sock = ScriptSock(stream, sched, budget=6 * len(stream) + 60)
+
+    class Probe(SyncRpcClient):
+        def _process_response(self, response, pdu_header, resp_type, encrypt_offsets=None):
+            return bytes(response)
+
+    c = Probe(sock)
+    out = []
+    for _ in range(2):
+        try:
+            out.append(c._send_pdu(_request_pdu(c), Response))
+        except Exception as exc:  # noqa: BLE001
+            out.append(classify(exc))
+            break
+    if len(out) == 1:
+        out.append(None)
+    ok = not any(isinstance(o, Err) for o in out)
+    return [out[0], out[1], (len(sock.data) - sock.pos) if ok else -1]
+
+
+def impl_async2(arg):
+    from dpapi_ng._rpc._client import AsyncRpcClient
+    from dpapi_ng._rpc._request import Response
+
+    from ..core import classify
+
+    stream, sched = arg
+
+    class Probe(AsyncRpcClient):
+        def _process_response(self, response, pdu_header, resp_type, encrypt_offsets=None):
+            return bytes(response)
+
+    async def run():
+        reader = asyncio.StreamReader()
+        c = Probe(reader, _Writer())
+
+        async def feeder():
+            for ch in _chunks(bytes(stream), sched):
+                reader.feed_data(ch)
+                await asyncio.sleep(0)
+            reader.feed_eof()
+
+        ft = asyncio.ensure_future(feeder())
+        out = []
+        for _ in range(2):
+            try:
+                out.append(await asyncio.wait_for(c._send_pdu(_request_pdu(c), Response), 5))
+            except asyncio.TimeoutError:
+                out.append(Err("OutOfFuel"))
+                break
+            except Exception as exc:  # noqa: BLE001
+                out.append(classify(exc))
+                break
+        try:
+            await ft
+        except Exception:  # noqa: BLE001
+            pass
+        if len(out) == 1:
+            out.append(None)
+        ok = not any(isinstance(o, Err) for o in out)
+        return [out[0], out[1], len(reader._buffer) if ok else -1]
+
+    return asyncio.run(run())
+
+
+def gen_cases2(ctx: Ctx):
+    rs = replies()
+    names = sorted(rs)
+    cases = []
+    for a in names:
+        for b in names:
+            s = rs[a] + rs[b]
+            n = len(s)
+            cases.append([s, []])
+            cases.append([s, [1] * n])
+            cases.append([s, [len(rs[a]) + 3, 5]])      # the first read delivers the start of the second reply too
+            cases.append([s, [len(rs[a]) - 1, 2, 7]])
+            for _ in range(ctx.n(2, 20)):
+                cases.append([s + bytes(ctx.rng.randrange(256) for _ in range(ctx.rng.randrange(0, 4))),
+                              [ctx.rng.randrange(1, 40) for _ in range(ctx.rng.randrange(0, 12))]])
+            for k in (0, 1, 15, 16, 17, len(rs[b]) - 1):
+                cases.append([rs[a] + rs[b][:k], [9, 9, 9]])
+    return cases
+
+
+def pred2(arg, out):
+    stream, sched = arg
+    rs = replies()
+    for a in rs.values():
+        if bytes(stream[: len(a)]) != a:
+            continue
+        rest = bytes(stream[len(a):])
+        if out is None or isinstance(out[0], Err) or bytes(out[0]) != a:
+            return "first reply not reassembled"
+        for b in rs.values():
+            if rest[: len(b)] == b:
+                if isinstance(out[1], Err) or out[1] is None or bytes(out[1]) != b:
+                    return f"second reply on the same connection not reassembled ({out[1]})"
+                return None
+            if b[: len(rest)] == rest and len(rest) < len(b):
+                if not isinstance(out[1], Err):
+                    return "truncated second reply accepted"
+                if out[1].name == "OutOfFuel":
+                    return "connection closed during the second reply: the client keeps reading"
+                return None
+    return None
+
+
 def replies():
     import uuid
 
@@ -241,9 +357,12 @@ def pred_sync(arg, out):
 def units(ctx: Ctx, only=None):
     cases = [] if getattr(ctx, "replay_only", False) else gen_cases(ctx)
     acases = cases if ctx.thorough else cases[::4]
+    c2 = [] if getattr(ctx, "replay_only", False) else gen_cases2(ctx)
     return [
         Unit("recv.sync", "recv.sync", cases, impl_sync, prop_pred=pred_sync),
         Unit("recv.async", "recv.async", acases, impl_async, prop_pred=pred_sync),
+        Unit("recv.sync2", "recv.sync2", c2, impl_sync2, prop_pred=pred2),
+        Unit("recv.async2", "recv.async2", c2 if ctx.thorough else c2[:: 3], impl_async2, prop_pred=pred2),
     ]
 
 
@@ -256,6 +375,12 @@ def search(ctx: Ctx):
         for name, fn in (("recv.sync", impl_sync), ("recv.async", impl_async)):
             tried += 1
             why = pred_sync(c, dec(run_impl(fn, c)))
+            if why:
+                return {"unit": name, "input": enc(c), "why": why, "tried": tried, "key": None}
+    for c in gen_cases2(ctx):
+        for name, fn in (("recv.sync2", impl_sync2), ("recv.async2", impl_async2)):
+            tried += 1
+            why = pred2(c, dec(run_impl(fn, c)))
             if why:
                 return {"unit": name, "input": enc(c), "why": why, "tried": tried, "key": None}
     ctx.notes.append(f"search: {tried} (stream, schedule) runs satisfy the property on the implementation")
